@@ -11,7 +11,7 @@ from .fontlib import gdl, gen
 
 def _make(args):
     kind, seed, i, outdir = args
-    rng = random.Random((seed * 1000003 + i) * 7 + {'hostile': 1, 'c06': 2, 'wellformed': 3, 'just': 4, 'stateful': 5, 'cmap': 6}.get(kind, 9))
+    rng = random.Random((seed * 1000003 + i) * 7 + {'hostile': 1, 'c06': 2, 'wellformed': 3, 'just': 4, 'stateful': 5, 'cmap': 6, 'feat': 7}.get(kind, 9))
     for attempt in range(20):
         try:
             if kind == 'hostile':
@@ -22,6 +22,8 @@ def _make(args):
                 spec = gen.stateful_spec(rng)
             elif kind == 'cmap':
                 spec = gen.cmap_spec(rng)
+            elif kind == 'feat':
+                spec = gen.feat_spec(rng)
             else:
                 spec = gen.gen_spec(rng, gen.C06_ALL)
             if kind != 'cmap' or rng.random() < 0.5:
